@@ -164,9 +164,23 @@ ChainL(t)  == IF t = "quick" THEN Pick(AllLeaves, {"nil", "false", "1", "x", "x(
               ELSE Pick(AllLeaves, {"nil", "false", "true", "1", "\"a\"", "{}", "x", "y", "x()", "..."})
 D3Chain(t) == {Bin(o2, Bin(o1, a, b), c) : o1 \in {"and", "or"}, o2 \in {"and", "or"}, a \in ChainL(t), b \in ChainL(t), c \in ChainL(t)}
 
+\* powers whose mathematical result is a power of two (exactly representable, or clearly out of range): every conforming pow
+\* returns exactly that value, however large the exponent; an evaluator that multiplies step by step underflows / overflows
+\* on the way (`2 ^ -1074` is the smallest subnormal, not 0)
+PowPairs == { <<"2", "(-1074)">>, <<"2", "(-1073)">>, <<"2", "(-1024)">>, <<"2", "(-1023)">>, <<"2", "(-1022)">>, <<"2", "1023">>, <<"2", "1024">>,
+              <<"2", "53">>, <<"2", "(-52)">>, <<"2", "63">>, <<"2", "(-63)">>, <<"2", "64">>, <<"2", "(-1100)">>,
+              <<"4", "(-537)">>, <<"4", "(-512)">>, <<"4", "511">>, <<"4", "512">>, <<"8", "(-358)">>, <<"8", "(-342)">>, <<"8", "341">>,
+              <<"0.5", "1074">>, <<"0.5", "1022">>, <<"0.5", "(-1023)">>, <<"0.5", "(-1024)">>, <<"(-2)", "(-1074)">>, <<"(-2)", "(-1073)">>, <<"(-2)", "1023">>,
+              <<"16", "(-268)">>, <<"1024", "(-107)">>, <<"2", "(-1)">>, <<"3", "33">>, <<"10", "22">>, <<"10", "15">>, <<"5", "22">>, <<"7", "18">> }
+PowExprs == {Bin("^", Lf(p[1]), Lf(p[2])) : p \in PowPairs}
+PowCmp   == {Bin(op, Par(e), z) : op \in {">", "==", "<"}, e \in PowExprs, z \in {Lf("0"), Lf("5e-324"), Lf("(1/0)")}}
+            \cup {Bin("*", Par(e), Lf("2")) : e \in PowExprs} \cup {Bin("/", Lf("1"), Par(e)) : e \in PowExprs}
+            \cup {Bin("..", Par(Bin(">", Par(e), Lf("0"))), Lf("\"\"")) : e \in PowExprs}
+
 \* ---------------------------------------------------------------- all cases
 Families(t) == <<
   ListFam("leaf", 0, AllLeaves),
+  ListFam("pow", 1, PowExprs), ListFam("powcmp", 2, PowCmp),
   BinFam("arith", 1, ArithOps, ArithL(t), ArithL(t)), BinFam("cmp", 1, CmpOps, CmpL(t), CmpL(t)),
   BinFam("concat", 1, {".."}, CatL(t), CatL(t)), BinFam("andor", 1, {"and", "or"}, LogL(t), LogL(t)),
   ListFam("unary", 1, D1Un), ListFam("paren", 1, D1Par), ListFam("cast", 1, D1Cast),
